@@ -614,15 +614,23 @@ def specialize(formulas, cases):
         if z3.is_app(e):
             if e.decl().name() == "pow2" and z3.is_int_value(e.arg(0)) and 0 <= e.arg(0).as_long() <= 4096:
                 apps[e.get_id()] = (e, z3.IntVal(2 ** e.arg(0).as_long()))
+            elif e.decl().name() in ("bor", "band") and e.num_args() == 2 and z3.is_int_value(e.arg(0)) and z3.is_int_value(e.arg(1)) \
+                    and e.arg(0).as_long() >= 0 and e.arg(1).as_long() >= 0:
+                # bitwise or/and of two non-negative numerals (python ints): folded once a case split made the operands concrete
+                a_, b_ = e.arg(0).as_long(), e.arg(1).as_long()
+                apps[e.get_id()] = (e, z3.IntVal((a_ | b_) if e.decl().name() == "bor" else (a_ & b_)))
             for c in e.children():
                 walk(c, seen)
         elif z3.is_quantifier(e):
             walk(e.body(), seen)
 
-    seen = set()
-    for f in out:
-        walk(f, seen)
-    if apps:
+    for _round in range(12):
+        apps.clear()
+        seen = set()
+        for f in out:
+            walk(f, seen)
+        if not apps:
+            break
         out = [z3.simplify(z3.substitute(f, *apps.values())) for f in out]
     return out
 
